@@ -152,7 +152,7 @@ def run_shard(spec, tier, seed):
                 continue
             nflip = 0
             ndir = sum(1 for b in bases if b[0].key in directed_keys)
-            for p, ans, keys in (bases[:20] if witness else bases[:min(ndir, 40) + (3 if tier == 'quick' else 10)]):
+            for p, ans, keys in (bases[:45] if witness else bases[:min(ndir, 40) + (3 if tier == 'quick' else 10)]):
                 if witness and nflip:
                     break           # witness: every base is tried until the gate is reached once
                 for key in sorted(keys)[:2]:
